@@ -959,6 +959,19 @@ func c01Scenarios(res *eng.Result, ss *sigSet) {
 		sc{"two-uses-augments-of-one-target", m(`container u { container c { leaf l { type string; } leaf y { type string; } leaf z { type string; } } }`), m(`grouping g { container c { leaf l { type string; } } } container u { uses g { augment "c" { leaf y { type string; } } augment "c" { leaf z { type string; } } } }`)},
 		sc{"refine-target-added-by-inner-uses-of-same-grouping", m(`container u { container c { leaf l { type string; description "outer"; } container c { leaf l { type string; } } } }`), m(`grouping g { container c { leaf l { type string; } } } container u { uses g { refine c/l { description "outer"; } augment "c" { uses g; } } }`)},
 	)
+	// many augments of one module: each adds its nodes in the order the augments are written, whatever
+	// the depth of their targets
+	for _, n := range []int{3, 12, 13, 17, 33} {
+		var inl, fac strings.Builder
+		inl.WriteString("container c { container d { container e { leaf ee { type string; } } leaf dd { type string; } } ")
+		fac.WriteString(`container c { container d { container e { } } } augment "/c/d/e" { leaf ee { type string; } } augment "/c/d" { leaf dd { type string; } } `)
+		for i := 0; i < n; i++ {
+			fmt.Fprintf(&inl, "leaf a%d { type string; } ", i)
+			fmt.Fprintf(&fac, `augment "/c" { leaf a%d { type string; } } `, i)
+		}
+		inl.WriteString("}")
+		scs = append(scs, sc{fmt.Sprintf("augments-in-textual-order/%d-augments-of-one-target-after-deeper-ones", n), m(inl.String()), m(fac.String())})
+	}
 	// what is not YANG written out is not YANG through a grouping or an augment either
 	for _, rj := range []sc{
 		{"same-leaf-in-two-cases", m(`choice ch { case p { leaf z { type string; } } case q { leaf z { type string; } } }`), m(`grouping g { leaf z { type string; } } choice ch { case p { uses g; } case q { uses g; } }`)},
